@@ -56,11 +56,22 @@ def run(ctx, rep):
         r, w = norm(lay["read"], "read", ctx.wire), norm(lay["write"], "write", ctx.wire)
         rep.check("R17.3", "%s::%s:shape" % (crate, root), [(x[1], x[2]) for x in r] == [(x[1], x[2]) for x in w],
                   "root read shape %s vs write shape %s" % (show(r), show(w)), ctx.loc(ent), sample={"root": root, "shape": show(r)})
-        # counts are the 4-byte signed integers of the file format
+    # counts are the 4-byte signed integers of the file format - in the roots and in every nested record (Object, ...), with
+    # nothing inserted between a count and the next field
+    ncounts = 0
+    for (crate, modpath, file, it) in structs:
+        lay = ctx.wire.layout(it["name"], None, crate)
+        if not lay:
+            continue
         for fi in lay["fields"]:
             if "calc" in fi["dirs"]["write"]:
-                rep.check("R17.3", "%s::%s.%s:count-type" % (crate, root, fi["name"]), fi["ty"]["text"] == "i32",
-                          "count %s must be the format's i32" % fi["name"], ctx.loc(ent, fi["ln"]), nontrivial=False)
+                ncounts += 1
+                pads = [k for side in ("read", "write") for k in fi["dirs"][side] if k.startswith("pad_") or k.startswith("align_")]
+                rep.check("R17.3", "%s::%s.%s:count-type" % (crate, it["name"], fi["name"]), fi["ty"]["text"] == "i32" and not pads,
+                          "count %s is `%s`%s: the format stores every count as a 4-byte signed int, so a larger declared count would be read as a smaller one"
+                          % (fi["name"], fi["ty"]["text"], " with " + ",".join(sorted(set(pads))) if pads else ""), ctx.loc((crate, modpath, file, it), fi["ln"]),
+                          sample={"struct": it["name"], "count": fi["name"], "type": fi["ty"]["text"]})
+    rep.check("R17.3", "count-type:anchors", ncounts >= 5, "expected at least 5 calculated count fields in insim_pth/insim_smx, found %d" % ncounts, None, nontrivial=False)
     # endianness overrides elsewhere
     for (crate, modpath, file, it) in structs:
         for node, suffix in [(it, "")] + [(f, "." + f["name"]) for f in it["fields"]]:
